@@ -188,3 +188,30 @@ fn dtls_eq(a: &tp::DTLSMessage, b: &tp::DTLSMessage) -> bool {
 }
 extend_one_fixed!(c06_dtls_msg_serverdone, tp::parse_dtls_message_handshake, 14, 6, "C06.dtls_msg.serverdone", [0 => 14, 9 => 0, 10 => 0, 11 => 2], |a, b| dtls_eq(a, b));
 extend_one_fixed!(c06_dtls_msg_hello_verify_request, tp::parse_dtls_message_handshake, 17, 6, "C06.dtls_msg.hello_verify_request", [0 => 3, 9 => 0, 10 => 0, 11 => 5], |a, b| dtls_eq(a, b));
+
+// single-purpose extension parsers: declared length smaller than what the content decoder would like to read
+fn ext_any_eq(a: &tp::TlsExtension, b: &tp::TlsExtension) -> bool {
+    use tp::TlsExtension as X;
+    match (a, b) {
+        (X::EarlyData(x), X::EarlyData(y)) => x == y,
+        (X::StatusRequest(x), X::StatusRequest(y)) => match (x, y) {
+            (Some((t, d)), Some((u, e))) => t.0 == u.0 && ps(d, e),
+            (None, None) => true,
+            _ => false,
+        },
+        (X::SessionTicket(x), X::SessionTicket(y)) => ps(x, y),
+        (X::Cookie(x), X::Cookie(y)) => ps(x, y),
+        (X::KeyShare(x), X::KeyShare(y)) => ps(x, y),
+        (X::PreSharedKey(x), X::PreSharedKey(y)) => ps(x, y),
+        (X::SupportedVersions(x), X::SupportedVersions(y)) => x.len() == y.len(),
+        (X::MaxFragmentLength(x), X::MaxFragmentLength(y)) => x == y,
+        (X::Heartbeat(x), X::Heartbeat(y)) => x == y,
+        _ => false,
+    }
+}
+extend_one_fixed!(c06_tag_early_data_len2, tp::parse_tls_extension_early_data, 7, 6, "C06.tag.early_data", [0 => 0, 1 => 0x2a, 2 => 0, 3 => 2], |a, b| ext_any_eq(a, b));
+extend_one_fixed!(c06_tag_early_data_len0, tp::parse_tls_extension_early_data, 7, 6, "C06.tag.early_data0", [0 => 0, 1 => 0x2a, 2 => 0, 3 => 0], |a, b| ext_any_eq(a, b));
+extend_one_fixed!(c06_tag_status_request_len0, tp::parse_tls_extension_status_request, 5, 6, "C06.tag.status_request", [0 => 0, 1 => 5, 2 => 0, 3 => 0], |a, b| ext_any_eq(a, b));
+extend_one_fixed!(c06_tag_max_fragment_length_len0, tp::parse_tls_extension_max_fragment_length, 4, 6, "C06.tag.max_fragment_length", [0 => 0, 1 => 1, 2 => 0, 3 => 0], |a, b| ext_any_eq(a, b));
+extend_one_fixed!(c06_tag_supported_versions_len1, tp::parse_tls_extension_supported_versions, 6, 6, "C06.tag.supported_versions", [0 => 0, 1 => 0x2b, 2 => 0, 3 => 1], |a, b| ext_any_eq(a, b));
+extend_one_fixed!(c06_tag_cookie_len2, tp::parse_tls_extension_cookie, 6, 6, "C06.tag.cookie", [0 => 0, 1 => 0x2c, 2 => 0, 3 => 2], |a, b| ext_any_eq(a, b));
